@@ -193,6 +193,38 @@ def _fail_logs_kept() -> dict[str, bool]:
     return out
 
 
+def _sink_shape() -> dict[str, bool]:
+    """`_ClientLogSink` (rpc/_wire.py): `__call__` writes through exactly when `self._writer is not None and
+    self._schema is not None` (identity tests — an empty `pa.Schema` is falsy, so truthiness tests would buffer for ever),
+    else appends to the buffer; `flush_contents` sets writer + schema, writes the buffer in order and clears it;
+    `reset` clears writer and schema."""
+    out = {"call_is_not_none": False, "call_shape": False, "flush_shape": False, "reset_shape": False}
+    t = ast.parse((REPO / "vgi_rpc/rpc/_wire.py").read_text())
+    cls = next((n for n in ast.walk(t) if isinstance(n, ast.ClassDef) and n.name == "_ClientLogSink"), None)
+    if cls is None:
+        return out
+    fns = {n.name: n for n in cls.body if isinstance(n, ast.FunctionDef)}
+    c = fns.get("__call__")
+    if c is not None:
+        ifs = [n for n in c.body if isinstance(n, ast.If)]
+        if len(ifs) == 1:
+            i = ifs[0]
+            out["call_is_not_none"] = ast.unparse(i.test) == "self._writer is not None and self._schema is not None"
+            out["call_shape"] = (len(i.body) == 1 and ast.unparse(i.body[0]) == "_write_message_batch(self._writer, self._schema, msg, server_id=self._server_id)"
+                                 and len(i.orelse) == 1 and ast.unparse(i.orelse[0]) == "self._buffer.append(msg)")
+    f = fns.get("flush_contents")
+    if f is not None:
+        body = [ast.unparse(n) for n in f.body if not (isinstance(n, ast.Expr) and isinstance(n.value, ast.Constant))]
+        out["flush_shape"] = body == ["self._writer = writer", "self._schema = schema",
+                                      "for msg in self._buffer:\n    _write_message_batch(writer, schema, msg, server_id=self._server_id)",
+                                      "self._buffer.clear()"]
+    r = fns.get("reset")
+    if r is not None:
+        body = [ast.unparse(n) for n in r.body if not (isinstance(n, ast.Expr) and isinstance(n.value, ast.Constant))]
+        out["reset_shape"] = body == ["self._writer = None", "self._schema = None"]
+    return out
+
+
 def emit() -> dict[str, str]:
     wire = ast.parse((REPO / "vgi_rpc/rpc/_wire.py").read_text())
     fn = _func(wire, "_dispatch_log_or_error")
@@ -208,6 +240,7 @@ def emit() -> dict[str, str]:
         pro = _prologue(fn)
     known = {"level_bytes", "message_bytes", "raw_extra", "request_id_bytes", "server_id_bytes", "kind_bytes"}
     fl = _fail_logs_kept()
+    sk = _sink_shape()
     body = f"""namespace VgiVerif.Gen.LogDispatch
 
 /-- guards of `_dispatch_log_or_error` (vgi_rpc/rpc/_wire.py), read off its AST -/
@@ -251,6 +284,14 @@ def flushLogsHelperRecognised : Bool := {_b(fl["helper"])}
 @[reducible] def httpProducerKeepsLogs : Bool := {_b(fl["http_producer"] and fl["helper"])}
 @[reducible] def httpExchangeKeepsLogs : Bool := {_b(fl["http_exchange"] and fl["helper"])}
 @[reducible] def httpInitKeepsLogs : Bool := {_b(fl["http_init"])}
+
+/-! `_ClientLogSink` (rpc/_wire.py) -/
+/-- `__call__` decides "a writer is available" by `is not None` on writer and schema (NOT by truthiness: an empty
+`pa.Schema` is falsy) -/
+@[reducible] def sinkTestsIsNotNone : Bool := {_b(sk["call_is_not_none"])}
+/-- `__call__`: write through / else buffer; `flush_contents`: set writer + schema, write the buffer in order, clear it;
+`reset`: forget writer + schema -/
+def sinkShapeRecognised : Bool := {_b(sk["call_shape"] and sk["flush_shape"] and sk["reset_shape"])}
 
 end VgiVerif.Gen.LogDispatch
 """
